@@ -34,6 +34,9 @@ BIG_SOURCE = ((16, 9, 40), 32, (4, 4, -1), 1, 4.0, 'big')
 # less than one bit per voxel (lengths in the header are whole disk blocks computed from a fractional rate), with stored header arrays
 SUB_SOURCE = ((9, 10, 30), 0.5, (4, 4, -1), 2)
 SUB_SOURCE_B = ((70, 9, 6), 0.25, (256, 128, 4), 1)
+# sources whose recorded version sits right after a format gate (0.2.1: trace-count field and padded footer; 0.1.6: interval unit): written now,
+# re-stamped (the conventions of every release after the gate are today's)
+STAMP_SOURCES = [((9, 13, 30), 16, (4, 4, -1), 2, 4.0, 'stamp:0.2.2'), ((9, 13, 30), 16, (4, 4, -1), 3, 4.0, 'stamp:0.2.2.dev'), ((6, 7, 30), 16, (4, 4, -1), 2, 4.0, 'stamp:1.0.0')]
 
 
 def make_dup_source(d, k, seed):
@@ -87,6 +90,11 @@ def make_source(d, k, spec, seed):
         th[f] = (t * (j + 3) - 11 * j).astype(np.int32)
     p = os.path.join(d, f'src{k}.sgz')
     writers.numpy_to_sgz(p, cube, writers.rate_arg(rate), bs, ilines=il, xlines=xl, samples=zs, trace_headers=th)
+    if len(spec) > 5 and str(spec[5]).startswith('stamp:'):
+        from seismic_zfp.version import SeismicZfpVersion
+        with open(p, 'r+b') as f:
+            f.seek(72)
+            f.write(int(SeismicZfpVersion(spec[5][6:]).encoding).to_bytes(4, 'little'))
     return p
 
 
@@ -251,7 +259,7 @@ def judge(run, S, mode, box, r, ev):
 def prepare(run):
     d = env.subdir('c10src')
     quick = run.tier == 'quick'
-    specs = (SOURCES[:7] if quick else SOURCES) + [ZERO_SOURCE, DESC_SOURCE, BIG_SOURCE, SUB_SOURCE] + ([] if quick else [SUB_SOURCE_B])
+    specs = (SOURCES[:7] if quick else SOURCES) + [ZERO_SOURCE, DESC_SOURCE, BIG_SOURCE, SUB_SOURCE] + (STAMP_SOURCES[:2] if quick else [SUB_SOURCE_B] + STAMP_SOURCES)
     S = []
     for k, spec in enumerate(specs + ['dup', 'irr']):
         mask = None
@@ -272,7 +280,7 @@ def prepare(run):
         desc = len(spec) > 5 and spec[5] == 'desc'
         big = len(spec) > 5 and spec[5] == 'big'
         dz_us = int(round(1000 * (spec[4] if len(spec) > 4 else 4.0)))
-        S.append({'path': p, 'label': f'numpy{shape}r{rate}b{bs}h{extra}', 'F': fc.F, 'snap': _snapshot(p), 'data': raw[H['n_header_blocks'] * 4096:H['n_header_blocks'] * 4096 + H['data_blocks'] * 4096],
+        S.append({'path': p, 'label': f'numpy{shape}r{rate}b{bs}h{extra}' + (f' {spec[5]}' if len(spec) > 5 and str(spec[5]).startswith('stamp:') else ''), 'F': fc.F, 'snap': _snapshot(p), 'data': raw[H['n_header_blocks'] * 4096:H['n_header_blocks'] * 4096 + H['data_blocks'] * 4096],
                   'T': c03.truth(3, shape, fc.F['b'], rate, shape[0] * shape[1], (-8, 2) if zero else (130, -2) if desc else (150000, 1) if big else (100, 2), (-12, 3) if zero else (-7, -3) if desc else (250000, 2) if big else (-7, 3),
                                  8 if not zero else -16, dz_us, source_format=20 if extra not in ('dup', 'irr') else 0), 'mask': mask,
                   **({'z0_us': -16000} if zero else {})})
